@@ -1,39 +1,60 @@
 #!/usr/bin/env python3
-"""tools/seed_sweep.py [ids...] : apply each stored seeded mutation to /repo, run the quick check of its property
-(and of the properties sharing engines, if given in meta 'also'), restore /repo, and write seeded/RESULTS.json."""
+"""tools/seed_sweep.py [--scratch] [ids...] : apply each stored seeded mutation, run the quick check of its property,
+restore the tree, and write seeded/RESULTS.json.
+Without --scratch the mutation is applied to /repo itself (nothing else may use /repo or /verif meanwhile) and the
+evidence of the swept properties is rewritten from the restored tree at the end.
+With --scratch the sweep works on a scratch git worktree of /repo and a scratch copy of /verif under /tmp/sweep (removed
+at the end), so that /repo and /verif stay usable; only seeded/RESULTS.json is copied back."""
 import json, os, subprocess, sys, re
 ROOT = os.path.dirname(os.path.dirname(os.path.abspath(__file__)))
 def sh(cmd, **kw):
     return subprocess.run(cmd, shell=True, capture_output=True, text=True, **kw)
+args = sys.argv[1:]
+scratch = "--scratch" in args
+args = [a for a in args if a != "--scratch"]
 res = {}
 rp = os.path.join(ROOT, "seeded", "RESULTS.json")
 if os.path.exists(rp):
     res = json.load(open(rp))
-ids = sys.argv[1:] or sorted(d for d in os.listdir(os.path.join(ROOT, "seeded")) if re.match(r"C\d\d[a-z]$", d))
-assert sh("git -C /repo status --porcelain").stdout.strip() == "", "/repo must be clean"
+ids = args or sorted(d for d in os.listdir(os.path.join(ROOT, "seeded")) if re.match(r"C\d\d[a-z]$", d))
+repo, vroot = "/repo", ROOT
+if scratch:
+    base = "/tmp/sweep"
+    sh(f"git -C /repo worktree remove --force {base}/repo; rm -rf {base}; mkdir -p {base}")
+    a = sh(f"git -C /repo worktree add --detach {base}/repo HEAD")
+    assert a.returncode == 0, a.stderr
+    sh(f"rsync -a --exclude .build --exclude .work --exclude replays --exclude .git --exclude evidence {ROOT}/ {base}/verif/ && mkdir -p {base}/verif/evidence")
+    repo, vroot = f"{base}/repo", f"{base}/verif"
+else:
+    assert sh("git -C /repo status --porcelain").stdout.strip() == "", "/repo must be clean"
+env = dict(os.environ, VERIF_REPO=repo)
 for sid in ids:
     d = os.path.join(ROOT, "seeded", sid)
     patch = os.path.join(d, "patch_ported.diff")
     if not os.path.exists(patch):
         patch = os.path.join(d, "patch.diff")
     prop = sid[:3]
-    a = sh(f"git -C /repo apply {patch}")
+    a = sh(f"git -C {repo} apply {patch}")
     if a.returncode != 0:
         res[sid] = {"applies": False, "error": a.stderr[-300:]}
-        sh("git -C /repo checkout -- .")
+        sh(f"git -C {repo} checkout -- .")
+        print(sid, "DOES NOT APPLY", a.stderr[-200:], flush=True)
         continue
-    b = sh("cd /repo && GOFLAGS=-mod=mod GOPROXY=off go build ./...")
-    r = sh(f"cd {ROOT} && ./check {prop}")
+    b = sh(f"cd {repo} && GOFLAGS=-mod=mod GOPROXY=off go build ./...")
+    r = sh(f"cd {vroot} && ./check {prop}", env=env)
     last = [l for l in r.stdout.strip().split("\n") if l.startswith(("OK", "VIOLATION", "CHECK-BROKEN"))]
     verdict = last[-1] if last else r.stdout[-200:]
     res[sid] = {"applies": True, "patch": os.path.basename(patch), "builds": b.returncode == 0, "check": prop,
                 "caught": verdict.startswith("VIOLATION"), "with_failing_input": verdict.startswith("VIOLATION") and "no-failing-input-found" not in verdict,
-                "verdict": verdict[:200]}
-    sh("git -C /repo checkout -- .")
+                "verdict": verdict[:200].replace(vroot, ROOT)}
+    sh(f"git -C {repo} checkout -- ." + (f" && git -C {repo} clean -fdq" if scratch else ""))
     print(sid, res[sid]["verdict"][:120], flush=True)
     json.dump(res, open(rp, "w"), indent=1, sort_keys=True)
-# the runs above wrote evidence of mutated trees: rewrite it from the restored tree
-for prop in sorted({sid[:3] for sid in ids}):
-    r = sh(f"cd {ROOT} && ./check {prop}")
-    last = [l for l in r.stdout.strip().split("\n") if l.startswith(("OK", "VIOLATION", "CHECK-BROKEN"))]
-    print("restored", prop, (last[-1] if last else r.stdout[-200:])[:100], flush=True)
+if scratch:
+    sh("git -C /repo worktree remove --force /tmp/sweep/repo; rm -rf /tmp/sweep")
+else:
+    # the runs above wrote evidence of mutated trees: rewrite it from the restored tree
+    for prop in sorted({sid[:3] for sid in ids}):
+        r = sh(f"cd {ROOT} && ./check {prop}")
+        last = [l for l in r.stdout.strip().split("\n") if l.startswith(("OK", "VIOLATION", "CHECK-BROKEN"))]
+        print("restored", prop, (last[-1] if last else r.stdout[-200:])[:100], flush=True)
